@@ -29,8 +29,14 @@ struct Stack
 	unsigned frag_num, short_num, eintr_num;    // benign byte-level faults: chances out of 256 per write
 	uint64_t n_frag, n_short_r, n_short_w, n_eintr, n_checked;
 
-	Stack(Net *net_in, FdTable *fdt_in, bool auth_in, bool enc_in, bool chunked_in, const std::string &keybase_in)
-		: net(net_in), fdt(fdt_in), auth(auth_in), enc(enc_in), chunked(chunked_in), keybase(keybase_in),
+	// manual mode (event-loop scenarios): bytes of a framed unit become visible when the harness hands the unit over
+	bool manual;
+	std::vector<std::vector<std::deque<size_t> > > unit_bytes;   // [src][dst] byte length of every framed unit in flight
+	std::vector<std::vector<size_t> > rest;                      // [src][dst] bytes of a unit handed over only in part
+	uint64_t n_partial;
+
+	Stack(Net *net_in, FdTable *fdt_in, bool auth_in, bool enc_in, bool chunked_in, const std::string &keybase_in, bool manual_in = false)
+		: net(net_in), fdt(fdt_in), auth(auth_in), enc(enc_in), chunked(chunked_in), keybase(keybase_in), manual(manual_in), n_partial(0),
 		  bytes_released(0), frames(0), frag_num(0), short_num(0), eintr_num(0), n_frag(0), n_short_r(0),
 		  n_short_w(0), n_eintr(0), n_checked(0)
 	{
@@ -38,6 +44,8 @@ struct Stack
 		pipe.resize(n); ep.assign(n, NULL);
 		model.resize(n); last_release_ms.resize(n);
 		for (size_t s = 0; s < n; s++) { model[s].resize(n); last_release_ms[s].assign(n, 0); }
+		unit_bytes.resize(n); rest.resize(n);
+		for (size_t s = 0; s < n; s++) { unit_bytes[s].resize(n); rest[s].assign(n, 0); }
 		for (size_t s = 0; s < n; s++)
 			for (size_t d = 0; d < n; d++)
 			{
@@ -45,6 +53,7 @@ struct Stack
 				p->auto_visible = false;
 				p->capacity = (size_t)1 << 26;
 				Stack *me = this;
+				if (!manual)
 				p->wire = [me, s, d, p](SimPipe &, std::string &bytes)
 				{
 					// what the writer's write(2) accepted reaches the reader after the link latency (FIFO)
@@ -78,6 +87,52 @@ struct Stack
 				};
 				pipe[s].push_back(p);
 			}
+		if (manual)
+		{
+			net->frame_override = [me = this](size_t src, size_t dst, const Unit &u) -> size_t
+			{
+				aiounicast_select *e = me->ep[src];
+				if (e == NULL)
+					return 0;
+				SimPipe *p = me->pipe[src][dst];
+				size_t before = p->flight.size(), k = 0;
+				for (; k < u.ints.size(); k++)
+				{
+					mpz_t v; mpz_init(v); s2mpz(v, u.ints[k]);
+					bool ok = e->Send(v, dst);
+					mpz_clear(v);
+					if (!ok) { me->net->S->count("probe.stack_send_failed"); break; }
+					me->model[src][dst].push_back(u.ints[k]); me->frames++;
+				}
+				size_t bytes = p->flight.size() - before;
+				if (k == 0)
+				{
+					// nothing of the unit was accepted; what a refused Send may have written travels with the next unit
+					return 0;
+				}
+				me->unit_bytes[src][dst].push_back(bytes);
+				return k;
+			};
+			net->on_hand = [me = this](size_t src, size_t dst, const Unit &)
+			{
+				if (me->unit_bytes[src][dst].empty())
+					return;
+				size_t bytes = me->unit_bytes[src][dst].front(); me->unit_bytes[src][dst].pop_front();
+				SimPipe *p = me->pipe[src][dst];
+				Sim *S = me->net->S;
+				size_t now = me->rest[src][dst]; me->rest[src][dst] = 0;
+				if (bytes > 1 && me->frag_num && S->fault.below(256) < me->frag_num)
+				{
+					// the receiver's next call sees the unit only up to an arbitrary byte; the remainder follows after it
+					size_t cut = 1 + (size_t)S->fault.below(bytes - 1);
+					now += cut; me->rest[src][dst] = bytes - cut; me->n_partial++;
+				}
+				else
+					now += bytes;
+				me->bytes_released += p->release(now);
+			};
+		}
+		else
 		net->deliver_override = [me = this](size_t src, size_t dst, const Unit &u)
 		{
 			aiounicast_select *e = me->ep[src];
@@ -182,6 +237,15 @@ public:
 			if (!q.empty() && p->flight.empty() && st->last_release_ms[i_before][j] + (int64_t)timeout * 1000 <= N->S->now_ms - 1000)
 				st->violation = "link " + std::to_string(i_before) + "->" + std::to_string(j) + ": a receive timed out after " + std::to_string((long long)timeout) +
 					" s although " + std::to_string(q.size()) + " accepted values had been completely visible since " + std::to_string((long long)st->last_release_ms[i_before][j]) + " ms";
+		}
+		if (st->manual)
+		{
+			// what was handed over in part becomes complete after this call; the stub's inbox counts the integers
+			// that are visible and not yet returned
+			for (size_t s2 = 0; s2 < n; s2++)
+				if (st->rest[s2][j]) { st->bytes_released += st->pipe[s2][j]->release(st->rest[s2][j]); st->rest[s2][j] = 0; }
+			if (ok && i_out < n)
+				for (size_t k = 0; k < m.size() && !N->inbox[j][i_out].empty(); k++) N->inbox[j][i_out].pop_front();
 		}
 		if (ok)
 		{
